@@ -56,3 +56,17 @@ def new_rules_dir(tag='r'):
 
 def drop_rules(name):
     shutil.rmtree(os.path.join(scratch(), 'Rules', name), ignore_errors=True)
+
+
+def other_filesystem_tmpdir():
+    """A writable directory on another file system than the scratch copy (e.g. /dev/shm when the scratch copy is under /tmp), or None.  Used as TMPDIR: a tool
+    that builds a file in the temporary directory and renames it into place meets a cross-device rename there."""
+    import tempfile
+    here = os.stat(scratch()).st_dev
+    for d in ('/dev/shm', '/run/shm', '/var/tmp', '/tmp'):
+        try:
+            if os.path.isdir(d) and os.access(d, os.W_OK) and os.stat(d).st_dev != here:
+                return tempfile.mkdtemp(prefix='pcfgverif_tmp_', dir=d)
+        except OSError:
+            pass
+    return None
